@@ -5,11 +5,13 @@ import LP.Guaranteed
 -/
 namespace LP
 
-/-- `require_valid_cost` (nft_config.rs:39-47) -/
-def validCost (c : Pay) : Res Unit := do
+/-- `require_valid_cost` (nft_config.rs) followed by the launchpad-token check of
+    `try_set_nft_cost` (repair 4830c00: the fee may not be charged in the launchpad token) -/
+def validCost (lp : Nat) (c : Pay) : Res Unit := do
   if c.tok == .egld then req (c.nonce == 0) "EGLD token has no nonce"
   else req c.tok.valid "Invalid ESDT token ID"
   req (c.amount > 0) "Cost may not be 0"
+  req (c.tok != .esdt lp) "Launchpad token must be different from NFT cost token"
 
 /-- `confirm_nft` (confirm_nft.rs:13-31) -/
 def confirmNft (s : State) (e : Env) : Res State := do
